@@ -2,6 +2,7 @@ package rpckit
 
 import (
 	"fmt"
+	"math/big"
 	"math/rand"
 	"strings"
 )
@@ -231,8 +232,11 @@ var wfIDs = []V{Int(1), Int(0), Int(-5), Str("abc"), Str(""), Num("9007199254740
 
 func mkCase(reg *Registry, label string, id V, b baseReq, tags ...string) Case {
 	e := expectFor(reg, b.method, b.params)
-	e.HasID, e.ID = true, id
-	return Case{Label: label, Body: []byte(env(id, b.method, b.params).Raw()), Exp: e, WF: true, Common: isCommon(b.method), Tags: append([]string{"class:" + e.Class}, tags...)}
+	wf := id.K == 's' || within53(id.N)
+	if wf {
+		e.HasID, e.ID = true, id
+	}
+	return Case{Label: label, Body: []byte(env(id, b.method, b.params).Raw()), Exp: e, WF: wf, Common: isCommon(b.method), Tags: append([]string{"class:" + e.Class}, tags...)}
 }
 
 // ValidCases: every valid request with a spread of well-formed ids.
@@ -303,11 +307,12 @@ func envelopeExpect(reg *Registry, v V) (Expect, bool) {
 	if hasMethod && method.K == 's' {
 		mname = method.S
 	}
-	idWF := hasID && (id.K == 's' || (id.K == 'n' && !strings.ContainsAny(id.N, ".eE")) || (id.K == 'n' && isIntegral(id.N)))
+	idWF := hasID && (id.K == 's' || (id.K == 'n' && isIntegral(id.N) && within53(id.N)))
 	switch {
 	case mname != "" && hasID && id.K != 'z':
 		if hasRes || hasErr {
-			return Expect{Class: "lenient", Cause: "request-with-result-member", Req: true}, false
+			// as much a response as a request (stdio reads it as a response, the HTTP servers as a request)
+			return Expect{Class: "free", Req: true}, false
 		}
 		var pp *V
 		if hasParams {
@@ -330,6 +335,10 @@ func envelopeExpect(reg *Registry, v V) (Expect, bool) {
 	case mname != "" && hasID: // id null
 		return Expect{Class: "free", Method: mname, Req: true}, false
 	case mname != "":
+		if !exact {
+			// not a JSON-RPC 2.0 notification: ignoring it and refusing it (Invalid Request, id null) are both defensible
+			return Expect{Class: "free"}, false
+		}
 		return Expect{Class: "notification"}, false
 	case hasID && id.K != 'z' && (hasRes || hasErr):
 		return Expect{Class: "response"}, false
@@ -381,6 +390,16 @@ func onlyEnvelopeMembers(v V) bool {
 		}
 	}
 	return true
+}
+
+// within53: an integer the statement speaks about (|n| ≤ 2^53)
+func within53(n string) bool {
+	m, e := decimalOf(n)
+	if e != 0 {
+		return false
+	}
+	v, ok := new(big.Int).SetString(m, 10)
+	return ok && v.CmpAbs(new(big.Int).Lsh(big.NewInt(1), 53)) <= 0
 }
 
 func isIntegral(n string) bool {
